@@ -9,11 +9,15 @@ def unsafe_decode(string):
 
 def decode(string):
   validate_encoded(string)
-  return unsafe_decode(string)
+  value = unsafe_decode(string)
+  validate_decoded(value)
+  return value
 
-def validate_decoded(integer):
-  pass
-  # always valid
+def validate_decoded(obj):
+  if isinstance(obj, float) and (obj != obj or obj in [float("inf"),
+                                                      -float("inf")]):
+    raise gfapy.ValueError(
+      "{} is not a finite float value".format(repr(obj)))
 
 def validate_encoded(string):
   if not re.match(r"^[-+]?[0-9]*\.?[0-9]+([eE][-+]?[0-9]+)?$", string):
